@@ -452,7 +452,7 @@ def replay(ctx, data):
     want = data.get('route')
     for f in fl:
         if want is None or f.data.get('route') == want: return f
-    return fl[0] if fl else None
+    return None
 
 
 LEVEL_TEXT = ('Machine-checked proof (Coq 8.16.1) over a model of Pony\'s entity inheritance: for every schema the metaclass accepts (any number of trees, multiple '
